@@ -163,6 +163,7 @@ struct Obs
   std::vector<std::vector<double>> cum; // per class: Inf, IInf, Sup, SSup
   std::vector<double> F;                // pProb at B[i]
   double Elo = 0, Eup = 0, Zexp = 1;
+  bool mro = false; // median-valued classes: only the rescaling moved the values (see medianRescaleOnly)
   bool hasCdf = false;
 };
 
@@ -187,6 +188,8 @@ static bool vecNear(const std::vector<double>& a, const std::vector<double>& b)
     if (!(std::fabs(a[i] - b[i]) <= 1e-12)) return false;
   return true;
 }
+
+static bool medianRescaleOnly(const DiscreteDistributionInterface& d, const Obs& o);
 
 static Obs observe(const DiscreteDistributionInterface& d, const Cfg& c)
 {
@@ -272,14 +275,62 @@ static Obs observe(const DiscreteDistributionInterface& d, const Cfg& c)
       o.hasCdf = true;
     }
     catch (...) { o.hasCdf = false; }
+    if (c.median && c.scheme != 2) o.mro = medianRescaleOnly(d, o);
   }
   return o;
+}
+
+// Situation of the known finding C09-median-values-leave-their-class, recomputed from the object's own parent
+// functions: the UN-rescaled medians qProb(minX + (i + 1/2) ec) lie inside their own classes, and every stored
+// value is that median times the common factor mean / sum(medians) / ec (or has been clamped to / separated at
+// a domain end afterwards).  Medians that are wrong before the rescaling do not qualify.
+static bool medianRescaleOnly(const DiscreteDistributionInterface& d, const Obs& o)
+{
+  if (o.failed || o.B.size() != o.n + 1 || o.v.size() != o.n) return false;
+  try
+  {
+    size_t n = o.n;
+    double minX = d.pProb(o.lower), maxX = d.pProb(o.upper);
+    if (!(maxX > minX)) return false;
+    double ec = (maxX - minX) / static_cast<double>(n), t = 0;
+    std::vector<double> u(n);
+    for (size_t i = 0; i < n; ++i)
+    {
+      u[i] = d.qProb(minX + (static_cast<double>(i) + 0.5) * ec);
+      if (!(o.B[i] <= u[i] && u[i] <= o.B[i + 1])) return false;
+      t += u[i];
+    }
+    double f = t != 0 ? (d.Expectation(o.upper) - d.Expectation(o.lower)) / t / ec : 1;
+    // (the class map sorts the rescaled values: with a negative factor their order is reversed)
+    std::vector<double> ws(n);
+    for (size_t i = 0; i < n; ++i) ws[i] = u[i] * f;
+    std::sort(ws.begin(), ws.end());
+    for (size_t i = 0; i < n; ++i)
+    {
+      double w = ws[i], tol = 1e-9 * std::max(1.0, std::fabs(w));
+      bool scaled = std::fabs(o.v[i] - w) <= tol;
+      bool atEnd = std::fabs(o.v[i] - o.lower) <= tol || std::fabs(o.v[i] - o.upper) <= tol;
+      if (!scaled && !atEnd) return false;
+    }
+    return true;
+  }
+  catch (...) { return false; }
+}
+
+// the look-ups see the internal domain object even where the reported domain ends do not (ConstantDistribution
+// reports its value as both ends)
+static bool sameLookups(const Obs& a, const Obs& b)
+{
+  if (a.probes.size() != b.probes.size()) return false;
+  for (size_t i = 0; i < a.probes.size(); ++i)
+    if (!bitEq(a.probes[i].x, b.probes[i].x) || a.probes[i].resV != b.probes[i].resV || a.probes[i].resI != b.probes[i].resI) return false;
+  return true;
 }
 
 static bool obsEq(const Obs& a, const Obs& b)
 {
   return a.failed == b.failed && a.n == b.n && bitEq(a.lower, b.lower) && bitEq(a.upper, b.upper) && a.sl == b.sl && a.su == b.su &&
-         vecEq(a.interior, b.interior) && vecEq(a.v, b.v) && vecEq(a.p, b.p);
+         vecEq(a.interior, b.interior) && vecEq(a.v, b.v) && vecEq(a.p, b.p) && sameLookups(a, b);
 }
 
 // ------------------------------------------------------------------ known situation "narrow class"
@@ -402,6 +453,7 @@ static Obj encode(const Obs& o, const Cfg& c, const Obs* prev, const Obs* twin, 
     j.kv("dm", fp(dm / unit)).kv("pm", fp(pm / unit));
   }
   // history: bit-for-bit equality with the previous observation and with the fresh twin
+  j.kv("mro", o.mro); // for the signature of a known finding only
   j.kv("narrow", classifyShape(o) == 1); // for the signature of a known finding only; no predicate reads it
   j.kv("same", prev ? obsEq(o, *prev) : false);
   Obj tw;
@@ -868,6 +920,14 @@ public:
         }
       }
     }
+    else if (cfg.fam == "constant" && rng.coin())
+    {
+      // an interval that does not contain the constant: must be refused, nothing may move
+      double v = cfg.get("value"), a = grid(0.01), w = grid(0.01);
+      bool above = rng.coin();
+      r = Restr{above ? v + a : v - a - w, above ? v + a + w : v - a, rng.coin(), rng.coin()};
+      return true;
+    }
     else if (!pick(last.B, last.n, lo, hi, kl, kh)) return false;
     // an end that is kept is never requested at exactly the current domain end: what an
     // intersection does with the inclusion flags at equal bounds belongs to C01, not here
@@ -951,7 +1011,7 @@ public:
         DistP d = buildFresh(c);
         Obs o = observe(*d, c);
         int cls = classifyShape(o);
-        bool bad = (avNarrow && cls == 1) || (avMedian && cls != 0) || (avEmpty && c.kind() == "cont" && c.scheme == 1 && hasEmptyClass(o));
+        bool bad = (avNarrow && cls == 1) || (avMedian && cls != 0 && o.mro) || (avEmpty && c.kind() == "cont" && c.scheme == 1 && hasEmptyClass(o));
         // (scheme 1 only: "equal probabilities when possible" has to fall back to equal intervals instead)
         if (bad) { ++steered; return false; }
       }
